@@ -2,6 +2,7 @@ import SynthVerif.Tie.RibbonRun
 import SynthVerif.Props.C15
 import SynthVerif.Props.C16
 import SynthVerif.Props.C16Window
+import SynthVerif.Props.C16History
 import SynthVerif.Props.C16Bounds
 /-!
 # Tie 1d, end to end, `ribbon_controller.rs`: C16 restated for the *translated source*
@@ -77,5 +78,37 @@ theorem c16_value_range {N : Nat} (s : RibbonController N) (hc : s.current_val.i
     (b0 : 2 ^ (-100:ℤ) ≤ s.finger_press_high_boundary.val) :
     ∃ v, RibbonController.value s = some v ∧ v.isFin = true ∧ 0 ≤ v.val ∧ v.val ≤ 1 :=
   ⟨_, Tie.Ribbon.value_tie s, C16.value_range (Tie.Ribbon.abs s) hc hb c0 c1 b0⟩
+
+/-- a list of `poll` calls on the source -/
+def pollsSrc {N : Nat} (s : RibbonController N) : List F32 → Option (RibbonController N)
+  | [] => some s
+  | x :: xs => match RibbonController.poll s x with
+    | none => none
+    | some s' => pollsSrc s' xs
+
+/-- **C16 for every sample history on the translated source.**  From any state satisfying the history invariant (in particular
+a freshly constructed controller with a helper-sized buffer, `C16.new_inv`), any list of samples — any `f32`s — is polled
+without a panic, and at the end: if `finger_is_pressing`, then `current_val` is `corr(mean(w))` with `w` the oldest
+`capacity − discard` of the last `capacity` samples written during the current unbroken in-range run. -/
+theorem c16_history {N : Nat} (xs : List F32) (s : RibbonController N) (hwf : Tie.Ribbon.WF s) (all run : List F32)
+    (h : C16.HInv (Tie.Ribbon.abs s) all run) :
+    ∃ s' all' run', pollsSrc s xs = some s' ∧ Tie.Ribbon.WF s' ∧ C16.HInv (Tie.Ribbon.abs s') all' run' ∧
+      (s'.finger_is_pressing = true →
+        s'.current_val = C16.corr s'.error_const
+          (C16.mean (C16.window (Tie.Ribbon.abs s') run') (s'.buff.cap - s'.num_to_discard_at_end))) := by
+  induction xs generalizing s all run with
+  | nil => exact ⟨s, all, run, rfl, hwf, h, fun hp => (h.press hp).2.2.2⟩
+  | cons x xs ih =>
+    obtain ⟨r1, e1, h1, _⟩ := C16.step (Tie.Ribbon.abs s) all run h x
+    obtain ⟨hmap, hw⟩ := Tie.Ribbon.poll_tie s hwf x
+    rw [e1] at hmap
+    cases hp : RibbonController.poll s x with
+    | none => rw [hp] at hmap; simp at hmap
+    | some s1 =>
+      rw [hp] at hmap
+      simp only [Option.map_some, Option.some.injEq] at hmap
+      subst hmap
+      obtain ⟨s', all', run', e', w', i', c'⟩ := ih s1 (hw s1 hp) _ _ h1
+      exact ⟨s', all', run', by simp only [pollsSrc, hp]; exact e', w', i', c'⟩
 
 end Tie.TransferRibbon
